@@ -287,6 +287,14 @@ def _cond_atoms(c, truth):
         return _cond_atoms(c["l"], truth if c["op"] == "!=" else not truth)
     if k == "bin" and c["op"] in ("&&", "||"):
         return []
+    if k == "cond" and "c" in c and "a" in c and "b" in c:
+        # (x ? 1 : 0) is x, (x ? 0 : 1) is !x  (boolean-valued macros)
+        a, b_ = strip(c.get("a")), strip(c.get("b"))
+        if a is not None and b_ is not None and a.get("k") == "int" and b_.get("k") == "int":
+            if a["v"] != 0 and b_["v"] == 0:
+                return _cond_atoms(c["c"], truth)
+            if a["v"] == 0 and b_["v"] != 0:
+                return _cond_atoms(c["c"], not truth)
     out = [(ftext(c), truth, c)]
     if k == "bin" and c["op"] in ("<", "<=", ">", ">=", "==", "!="):
         l = strip(c["l"])
@@ -315,8 +323,12 @@ def guard_facts(fn, kill_on_assign=True):
 
     def transfer_block(b, facts):
         facts = set(facts)
-        for el in b["el"]:
-            for n in walk(el["x"]):
+        # the branch condition is evaluated at the end of the block: an assignment inside it (`if ((rc = f()) < 0)`) kills
+        # the facts about rc before the atoms of this condition are added on the outgoing edges
+        t_ = b.get("term")
+        xs = [el["x"] for el in b["el"]] + ([t_["c"]] if t_ is not None and "c" in t_ else [])
+        for x_ in xs:
+            for n in walk(x_):
                 tgt = None
                 if n.get("k") == "bin" and n["op"] in ("=", "+=", "-=", "|=", "&=", "^=", "<<=", ">>=", "*=", "/=", "%="):
                     tgt = strip(n["l"])
@@ -670,3 +682,36 @@ def escapes_const(fn, start_bid, is_pass, exempt_edge=None, target_expr=None, in
             if feasible:
                 stack.append((s_, frozenset(env.items()), path + [(s_, t.get("ln") if t else None)]))
     return None
+
+
+def atom_lower_bound(txt, tr):
+    """(lhs text, K) when the atom (txt, tr) establishes  lhs >= K  for an integer constant K:  (L < K) false, (L >= K) true,
+    (L > K) true [K+1], (L <= K) false [K+1], (L == K) true; and the mirrored spellings (K > L) ...; else None."""
+    import re
+    m = re.fullmatch(r"\((.+) (<|<=|>|>=|==) (-?\d+)\)", txt)
+    if m:
+        l, op, k = m.group(1), m.group(2), int(m.group(3))
+    else:
+        m = re.fullmatch(r"\((-?\d+) (<|<=|>|>=|==) (.+)\)", txt)
+        if not m:
+            return None
+        k, op, l = int(m.group(1)), {"<": ">", "<=": ">=", ">": "<", ">=": "<=", "==": "=="}[m.group(2)], m.group(3)
+    if op == "<" and not tr:
+        return (l, k)
+    if op == ">=" and tr:
+        return (l, k)
+    if op == ">" and tr:
+        return (l, k + 1)
+    if op == "<=" and not tr:
+        return (l, k + 1)
+    if op == "==" and tr:
+        return (l, k)
+    return None
+
+
+def edge_atoms(b, k):
+    """Atoms established by taking successor k of block b (two-way branches only)."""
+    t = b.get("term")
+    if not t or "c" not in t or len(b["succ"]) != 2 or t.get("k") == "switch":
+        return []
+    return [(txt, tr) for (txt, tr, nd) in _cond_atoms(t["c"], k == 0)]
